@@ -57,6 +57,10 @@ struct Scn {
     /// receive buffer and only start reading (slowly) once close() has been requested:
     /// the response is still in the server's buffers when shutdown begins
     big: usize,
+    /// the clients that stay send a second, complete request on the same connection in the
+    /// same write as the first (its handler is not gated): bytes of a following request are
+    /// already in the server's read buffer while the first one is in flight at shutdown
+    pipe: bool,
 }
 
 impl Scn {
@@ -85,9 +89,10 @@ impl Scn {
                 .join("+")
         };
         format!(
-            "inflight={},big={},noticed={},idle={}/{},half={},waiters={}/{}/{}",
+            "inflight={},big={},pipe={},noticed={},idle={}/{},half={},waiters={}/{}/{}",
             inf,
             self.big,
+            self.pipe as u8,
             self.wait_noticed as u8,
             self.idle_keepalive,
             self.idle_fresh,
@@ -248,7 +253,19 @@ fn run_scenario(rt: &Arc<tokio::runtime::Runtime>, id: &str, sc: &Scn) -> String
         if slow {
             big_conns.push(c);
         }
-        let _ = send_logged(&ctx, &mut s, &get(&path), Ev::ReqSent(c, r));
+        if sc.pipe && *cl == Client::Stays && !slow {
+            // two requests in one write; the second handler runs straight through if it is started
+            let r2 = r + 1;
+            ctx.release(r2);
+            let mut both = get(&path);
+            both.extend_from_slice(&get(&format!("/w/{}", r2)));
+            ctx.log(Ev::ReqSent(c, r));
+            ctx.log(Ev::ReqSent(c, r2));
+            let _ = s.write_all(&both);
+            reqs.push((r2, c, "pipelined".into()));
+        } else {
+            let _ = send_logged(&ctx, &mut s, &get(&path), Ev::ReqSent(c, r));
+        }
         if !ctx.wait_for(&Ev::Start(r), DEADLINE) {
             late += 1;
         }
@@ -721,7 +738,7 @@ fn main() {
         k += 1;
         v.push((format!("{}{}", tag, k), s));
     };
-    let base = |mode| Scn { mode, inflight: vec![], wait_noticed: false, idle_keepalive: 0, idle_fresh: 0, half_sent: false, waiters: [1, 1, 1], big: 0 };
+    let base = |mode| Scn { mode, inflight: vec![], wait_noticed: false, idle_keepalive: 0, idle_fresh: 0, half_sent: false, waiters: [1, 1, 1], big: 0, pipe: false };
     // 1. systematic
     for &m in &modes {
         // nothing in flight
@@ -732,6 +749,9 @@ fn main() {
         for rel in [Release::BeforeDone, Release::Before, Release::After] {
             add(&mut scenarios, "s", Scn { inflight: vec![(rel, Client::Stays, false)], ..base(m) });
             add(&mut scenarios, "s", Scn { inflight: vec![(rel, Client::Stays, false)], idle_keepalive: 1, idle_fresh: 1, waiters: [2, 2, 2], ..base(m) });
+            // a second request already in the server's read buffer while the first is in flight
+            add(&mut scenarios, "s", Scn { inflight: vec![(rel, Client::Stays, false)], pipe: true, ..base(m) });
+            add(&mut scenarios, "s", Scn { inflight: vec![(rel, Client::Stays, false), (Release::After, Client::Stays, false)], pipe: true, idle_keepalive: 1, ..base(m) });
             // a large response to a slow reader, still being written when shutdown is requested
             add(&mut scenarios, "s", Scn { inflight: vec![(rel, Client::Stays, false)], big: 6 << 20, ..base(m) });
             add(&mut scenarios, "s", Scn { inflight: vec![(rel, Client::Stays, false), (Release::After, Client::Stays, false), (rel, Client::Leaves(How::Rst), false)], big: 3 << 20, idle_keepalive: 1, ..base(m) });
@@ -783,6 +803,7 @@ fn main() {
                 half_sent: false,
                 waiters: [rng.below(4) as usize, rng.below(4) as usize, rng.below(4) as usize],
                 big: if i % 10 == 3 { (1 + rng.below(6) as usize) << 20 } else { 0 },
+                pipe: i % 10 == 7,
             },
         );
     }
